@@ -70,9 +70,10 @@ def gen(shard, tier):
     d = describe(tier)
     seq = shard['seq']
     n = len(seq)
-    slots = ['n', 'c'] + list(range(n))
+    # a residue slot 'i+' carries two pre-existing modifications (modified residues != modification entries)
+    slots = ['n', 'c'] + list(range(n)) + [f'{i}+' for i in range(n)]
     if tier != 'thorough' and n >= 3:
-        slots = ['n', 0, n - 1]
+        slots = ['n', 0, n - 1, f'{n - 1}+']
     for k in range(0, d['premod_slots'] + 1):
         for pre in itertools.combinations(slots, k):
             for nt, ct in (TERM_PAIRS if tier == 'thorough' else TERM_PAIRS_QUICK):
@@ -138,6 +139,8 @@ def base_state(case):
             nt = ['x']
         elif s == 'c':
             ct = ['y']
+        elif isinstance(s, str) and s.endswith('+'):
+            res[int(s[:-1])] = ['z%d' % int(s[:-1]), 'w']
         else:
             res[int(s)] = ['z%d' % int(s)]
     return seq, res, nt, ct
@@ -253,7 +256,7 @@ def check(case, ctx):
             if st2 != 'ok' or ga.sequence != seq:
                 ctx.fail('static-residues-changed', seq, gs, call=['apply_static_mods', s0, sir, sntr, sctr, mode, rt])
                 continue
-            if not overlapping:
+            if True:  # the static clause is exact for overlapping rule sets too: every rule reaches every matched residue
                 exp = rend(*ref_static(case, mode))
                 st3, ea = lib.call(p.parse, exp)
                 if st3 != 'ok' or not (ga == ea):
